@@ -49,7 +49,7 @@ PROBES = ['smtp', 'http', 'null-sender', 'quoted-local-part', 'utf8-address',
           'no-pipelining', 'no-8bitmime', 'no-smtputf8', 'size-advertised',
           'starttls', 'auth', 'helo-fallback', 'connection-reuse',
           'queue-error-reply', '8bit-body', 'dot-lines', 'bare-newlines',
-          'body-starts-blank',
+          'body-starts-blank', 'concurrent-requests',
           'no-final-newline', 'folded-header', '7bit-conversion-refused',
           'rcpt-rejected-by-edge', 'duplicate-recipient']
 STATES_MEASURE = 'distinct (transport, withheld extensions, address kinds, body flags) tuples'
@@ -137,7 +137,8 @@ def generate(seed, tier='quick'):
             'idle_timeout': rng.choice([None, 5.0]),
             'messages': msgs,
             'seg_c': rng.choice(['whole', 'line', 'few', 'cuts']),
-            'seg_s': rng.choice(['whole', 'line', 'few'])}
+            'seg_s': rng.choice(['whole', 'line', 'few']),
+            'http_concurrent': rng.random() < 0.4}
 
 
 def execute(scn, debug=False):
@@ -274,6 +275,35 @@ def _judge(result, scn, j, m, env_flat, captured, res, edge_code):
                    'sent %r, received %r' % (j, n, sent[max(0, n - 20):n + 30],
                                              got[max(0, n - 20):n + 30]),
                    body=m['body_kind'])
+
+
+class _LazyInput(object):
+    """wsgi.input over a socket: Content-Length bytes, read on demand"""
+
+    def __init__(self, sock, buf, n):
+        self.sock, self.buf, self.left = sock, buf, n
+        self.eof = False
+
+    def read(self, size=-1):
+        want = self.left if size is None or size < 0 else min(size, self.left)
+        while len(self.buf) < want and not self.eof:
+            d = self.sock.recv(4096)
+            if not d:
+                self.eof = True
+                break
+            self.buf += d
+        data, self.buf = self.buf[:want], self.buf[want:]
+        self.left -= len(data)
+        return data
+
+    def readline(self, size=-1):
+        return self.read(size)
+
+    def rest(self):
+        """bytes behind this request's body (the next request), or None
+        when the connection ended inside the body"""
+        self.read()
+        return None if self.left else self.buf
 
 
 def _smtp(world, scn, result):
@@ -491,13 +521,11 @@ def _http(world, scn, result):
                             else:
                                 environ[key] = v
                     n = int(environ.get('CONTENT_LENGTH', '0'))
-                    while len(buf) < n:
-                        d = sock.recv(4096)
-                        if not d:
-                            return
-                        buf += d
-                    body, buf = buf[:n], buf[n:]
-                    environ['wsgi.input'] = io.BytesIO(body)
+                    # like a real WSGI server: the application is called as
+                    # soon as the request head is in, and reading its input
+                    # blocks until the body has arrived
+                    inp = _LazyInput(sock, buf, n)
+                    environ['wsgi.input'] = inp
                     box = {}
 
                     def start_response(status, headers, exc_info=None):
@@ -506,6 +534,9 @@ def _http(world, scn, result):
                     out = edge(environ, start_response)
                     data = b''.join(x if isinstance(x, bytes) else
                                     x.encode() for x in (out or ()))
+                    buf = inp.rest()
+                    if buf is None:
+                        return
                     resp = 'HTTP/1.1 %s\r\n' % box['status']
                     for k, v in box['headers']:
                         if k.lower() != 'content-length':
@@ -529,13 +560,39 @@ def _http(world, scn, result):
     relay = HttpRelay('http://edge.sim/', ehlo_as='relay.sim', timeout=60.0,
                       idle_timeout=scn['idle_timeout'])
     results = []
+    conc = {}
+    if scn.get('http_concurrent') and len(scn['messages']) > 1:
+        # all messages at once, each on its own connection to the one edge
+        world.probe('concurrent-requests')
+
+        def one(j, m):
+            env = _envelope(m)
+            conc[j] = hr.classify_result(lambda: relay._attempt(env, 0))
+        gs = [gevent.spawn(one, j, m) for j, m in enumerate(scn['messages'])]
+        for g in gs:
+            world.wait(g, 600.0)
     for j, m in enumerate(scn['messages']):
         env = _envelope(m)
         flat = env.flatten()
         before = len(q.got)
-        res = hr.classify_result(lambda: relay._attempt(env, 0))
+        if conc:
+            res = conc.get(j) or {'whole': 'foreign:none', 'per': None,
+                                  'raised': 'no result', 'msg': 'attempt did '
+                                  'not return'}
+            mine = [c for c in q.got
+                    if (b'Subject: hop %d\r\n' % j) in c['hdr']]
+            captured = mine[0] if mine else None
+            if len(mine) > 1:
+                result['violations'].append({
+                    'clause': 'C06/content', 'detail': {'transport': 'http',
+                                                        'what': 'duplicated'},
+                    'msg': 'message %d reached the queue %d times' % (
+                        j, len(mine))})
+                break
+        else:
+            res = hr.classify_result(lambda: relay._attempt(env, 0))
+            captured = q.got[before] if len(q.got) > before else None
         results.append((res['whole'], res['per'], res.get('reply')))
-        captured = q.got[before] if len(q.got) > before else None
         if res['whole'] and res['whole'].startswith('foreign:'):
             result['violations'].append({
                 'clause': 'C06/result',
